@@ -58,7 +58,9 @@ def gen_plan(seed, tier):
         plan.update(solver=rng.choice(['DE', 'DE2']), dim=rng.randint(1, 5), strategy=strat,
                     npop=max(need, rng.choice([4, 5, 6, 8])), CR=rng.choice([0.0, 0.3, 0.5, 0.9, 1.0]),
                     F=rng.choice([0.4, 0.8, 1.2]), nsteps=rng.randint(3, 10), p_extreme=rng.choice([0.0, 0.15, 0.4]))
-        plan['cost'] = gen.gen_cost(rng, plan['dim'], ['quant', 'quant', 'quad', 'rosen', 'maxabs'])
+        plan['cost'] = gen.gen_cost(rng, plan['dim'], ['quant', 'quant', 'quad', 'rosen', 'maxabs', 'nanhole'])
+        if plan['cost']['model'] == 'nanhole':        # a cost that is nan on a sizeable ball: an unordered comparison in the selection
+            plan['cost']['params']['r2'] = rng.choice([0.25, 1.0, 4.0])
         lo, hi = gen.gen_box(rng, plan['dim'], exotic=False)
         plan['init'] = {'lo': lo, 'hi': hi}
         return plan
@@ -186,6 +188,10 @@ def run_de(plan, run, violate, stats):
             stats['iterations'] += 1
             evs = run.evals[e0:]
             new = trials[t0:]
+            if any(e != e for e in (float(v) for v in s.popEnergy)):
+                violate('de_selection_not_strict', 'generation %d: a member holds the energy nan (stored energies %r): an unordered '
+                        'comparison is not "strictly lower"' % (g, [float(v) for v in s.popEnergy]), strategy=plan['strategy']); return
+            if any(isinstance(e.y, float) and e.y != e.y for e in evs): stats['nan_trials'] = stats.get('nan_trials', 0) + 1
             if g == 0:
                 continue        # generation 0 evaluates the initial population (no strategy)
             npop = s.nPop           # (the solver raises the population size to max(NP, dim, 4))
